@@ -9,13 +9,14 @@ Statements are for **all** command tables, pool sizes, timeouts, behaviour flags
 histories of any length (`put`, `process` with any set of children found exited, clock advance,
 `release` of a slow command, `set_stopping`, `close`, `terminate`). Which children have exited
 when the pool polls them is an input of every operation (environment), so the statements hold
-for every exit order and timing. Helper lemmas: `CylcModel/SubProcLemmas.lean`.
+for every exit order and timing. Helper lemmas: `CylcModel/SubProcLemmas.lean` (counting),
+`CylcModel/SubProcRefine.lean` (coupling invariant pool ↔ monitor).
 
 `Flags` are the two behaviours probed from the live code (`Generated/SubProcFlags.lean`):
 whether `process()` / `terminate()` drop the callback of queued commands they refuse.
 `Flags.sound` = nothing dropped (the code after findings/C42-fix-1.diff).
 -/
-import CylcModel.SubProcLemmas
+import CylcModel.SubProcRefine
 namespace CylcModel.C42
 open CylcModel.SubProc
 
@@ -159,6 +160,40 @@ theorem code_as_probed (size : Nat) (timeout : Int) (ops : List Op) (id : Nat)
   · exact ⟨Or.inl h.2, Or.inl h.1⟩
   · exact h
 
+/-! ### the judge of the driver accepts the model (refinement) -/
+
+/-- **monitor_accepts.** For either behaviour of the code, every pool size and every history in which
+each command id is put at most once, the property monitor `Spec.monitor` (the judge run on the
+implementation: own bookkeeping of commands put / started / called back) never rejects the
+model's events: no second callback, no event for a command never put, never more children alive
+(started and not yet called back) than the pool size, no command started twice, no job-submit command
+started once stopping. -/
+theorem monitor_accepts (fl : Flags) (size : Nat) (timeout : Int) (ops : List Op) (hd : ∀ id, putN id ops ≤ 1) :
+    ∃ m, Spec.monitor size 0 {} ops ((trace fl (init size timeout) ops).map (·.1)) = .ok m := by
+  obtain ⟨m, h, _⟩ := monitor_run fl ops 0 (init size timeout) {} (si_init fl size timeout) hd (by simp)
+  exact ⟨m, h⟩
+
+/-- **judge_accepts_sound.** When no callback is dropped, the whole judge - the monitor plus "at
+quiescence every command put has been called back" - accepts the model's run of every history with
+distinct command ids that ends with nothing queued and nothing running. -/
+theorem judge_accepts_sound (size : Nat) (timeout : Int) (ops : List Op) (hd : ∀ id, putN id ops ≤ 1)
+    (hq : (exec Flags.sound (init size timeout) ops).1.queue = [])
+    (hr : (exec Flags.sound (init size timeout) ops).1.running = []) :
+    Spec.judge size ops ((trace Flags.sound (init size timeout) ops).map (·.1)) = .ok () := by
+  obtain ⟨m, h, hsi⟩ := monitor_run Flags.sound ops 0 (init size timeout) {} (si_init _ size timeout) hd (by simp)
+  have hall : ∀ id ∈ m.put, id ∈ m.called := by
+    intro id hid
+    have := hsi.ri.all_acc rfl id hid
+    rw [hq, hr] at this
+    simpa using this
+  have hfind : (m.put.reverse.find? fun i => !m.called.contains i) = none := by
+    rw [List.find?_eq_none]
+    intro x hx
+    have := hall x (List.mem_reverse.1 hx)
+    simpa using this
+  have hm : Spec.monitor size 0 {} ops ((trace Flags.sound (init size timeout) ops).map (·.1)) = .ok m := h
+  simp only [Spec.judge, hm, bind, Except.bind, Spec.checkQuiescent, hfind]
+
 /-! ### non-vacuity -/
 
 /-- a history with a full pool, a timeout, an unstartable command, a stop and a terminate -/
@@ -192,6 +227,9 @@ example : DropFree ⟨true, true⟩ [.put ⟨0, false, .quick, 0⟩, .setStoppin
 /-- `terminate_quiescent`: hypothesis met with a running child -/
 example : ∀ r ∈ ({ init 1 10 with running := [⟨⟨7, false, .hang, 0⟩, 10⟩] } : State).running, r.cmd.id ∈ [7] := by
   simp
+
+/-- hypotheses of `monitor_accepts` / `judge_accepts_sound` met on `exOps` -/
+example : ∀ id ∈ [0, 1, 2, 3, 4, 5], putN id exOps ≤ 1 := by decide
 
 /-- the monitor used as judge is not trivially accepting: a second callback is rejected -/
 example : Spec.judge 1 [.put ⟨0, false, .quick, 0⟩, .process [], .process [0]]
